@@ -247,6 +247,23 @@ impl RuntimeData {
     }
 
     pub fn free_object(&mut self, obj: NonNull<CaoLangObject>) {
+        #[cfg(feature = "verif-hooks")]
+        if crate::verif::quarantine_enabled() {
+            // keep the header alive but poisoned, so that a use-after-sweep is an observable
+            // read of the poison instead of undefined behaviour; the books are kept as usual
+            unsafe {
+                let poison = self.init_poison();
+                let old = std::mem::replace(&mut (*obj.as_ptr()).body, poison);
+                drop(old);
+                (*obj.as_ptr()).marker = GcMarker::Protected;
+                let l = Layout::new::<CaoLangObject>();
+                self.memory
+                    .allocated
+                    .fetch_sub(l.size() + l.align(), std::sync::atomic::Ordering::Relaxed);
+            }
+            crate::verif::quarantine_push(obj);
+            return;
+        }
         unsafe {
             std::ptr::drop_in_place(obj.as_ptr());
             self.memory
@@ -424,6 +441,16 @@ impl RuntimeData {
     }
 
     pub fn capture_upvalue() {}
+
+    /// body of a quarantined object: an empty, unaccounted string
+    #[cfg(feature = "verif-hooks")]
+    fn init_poison(&self) -> CaoLangObjectBody {
+        CaoLangObjectBody::String(CaoLangString {
+            len: 0,
+            ptr: NonNull::dangling(),
+            alloc: crate::verif::null_alloc_proxy(),
+        })
+    }
 }
 
 #[cfg(test)]
